@@ -72,6 +72,11 @@ pub fn body_text(j: usize) -> String {
     format!("hold {} </tmp/f{}", EXIT_OF[j - 1], j)
 }
 
+/// body of a foreground job that suspends itself first
+pub fn fg_body_text(j: usize) -> String {
+    format!("selfstop; hold {} </tmp/f{}", EXIT_OF[j - 1], j)
+}
+
 fn words(parts: &[&str], ops: &[String]) -> String {
     let mut w: Vec<String> = parts.iter().filter(|s| !s.is_empty()).map(|s| s.to_string()).collect();
     w.extend(ops.iter().cloned());
@@ -96,6 +101,7 @@ pub fn render(m: bool, script: &[Cmd]) -> String {
                 after = format!("p{}=$!\n", c.j);
                 format!("{} &", body_text(c.j))
             }
+            "fgstart" => format!("({})", fg_body_text(c.j)),
             "rel" => format!("echo x >/tmp/f{}", c.j),
             "settle" => "settle".to_string(),
             "jobs" => format!("{} >/tmp/o{i} 2>/tmp/e{i}", words(&["jobs", &c.opt], &c.ops)),
@@ -103,6 +109,7 @@ pub fn render(m: bool, script: &[Cmd]) -> String {
             "bg" => format!("{} >/tmp/o{i} 2>/tmp/e{i}", words(&["bg"], &c.ops)),
             "fg" => format!("{} >/tmp/o{i} 2>/tmp/e{i}", words(&["fg"], &c.ops)),
             "kill" => format!("{} 2>/tmp/e{i}", words(&["kill", "-s", &c.sig], &c.ops)),
+            "killl" => format!("kill -l {} >/tmp/o{i} 2>/tmp/e{i}", c.j),
             other => format!("probe bad-command {other}"),
         };
         s.push_str(&line);
@@ -126,6 +133,16 @@ fn hold_main(env: &mut VEnv, args: Vec<Field>) -> Pin<Box<dyn Future<Output = BR
             Ok(_) => BResult::new(ExitStatus(n)),
             Err(_) => BResult::new(ExitStatus(99)),
         }
+    })
+}
+
+/// `selfstop`: the calling process sends SIGSTOP to itself.
+fn selfstop_main(env: &mut VEnv, _args: Vec<Field>) -> Pin<Box<dyn Future<Output = BResult> + '_>> {
+    Box::pin(async move {
+        use yash_env::system::SendSignal as _;
+        let me = env.system.getpid();
+        let _ = env.system.kill(me, Some(vs::SIGSTOP)).await;
+        BResult::new(ExitStatus(0))
     })
 }
 
@@ -181,6 +198,9 @@ fn slot_of_name(name: &str) -> i64 {
         if n == body_text(j) {
             return j as i64;
         }
+        if n == fg_body_text(j) {
+            return j as i64 + 10;
+        }
     }
     -1
 }
@@ -214,6 +234,9 @@ fn bad_line(raw: &str) -> Value {
 /// Parses one line of the output of `jobs [-l|-p]`, `bg` or `fg`.
 fn parse_line(kind: &str, opt: &str, line: &str, pidmap: &HashMap<i64, i64>) -> Value {
     let slot_of_pid = |p: i64| pidmap.get(&p).copied().unwrap_or(-2);
+    if kind == "killl" {
+        return json!({"n": 0, "mk": "", "pid": -1, "st": "", "code": 0, "sig": line, "nm": -1});
+    }
     if kind == "fg" {
         return json!({"n": 0, "mk": "", "pid": -1, "st": "", "code": 0, "sig": "", "nm": slot_of_name(line)});
     }
@@ -293,6 +316,7 @@ pub fn run_script(m: bool, script: &[Cmd], schedule: Schedule) -> Run {
         state.borrow_mut().now = Some(std::time::Instant::now());
         env.builtins.insert("hold", Builtin::new(Type::Mandatory, hold_main));
         env.builtins.insert("settle", Builtin::new(Type::Mandatory, settle_main));
+        env.builtins.insert("selfstop", Builtin::new(Type::Mandatory, selfstop_main));
         env.builtins.insert("obs", Builtin::new(Type::Mandatory, obs_main));
     }));
     let r = run_shell(cfg);
@@ -331,6 +355,32 @@ pub fn run_script(m: bool, script: &[Cmd], schedule: Schedule) -> Run {
             }
         }
     }
+    for (k, c) in script.iter().enumerate() {
+        if c.k == "fgstart" {
+            if let Some(e) = obs.get(&(k as i64 + 1)) {
+                for t in e["tab"].as_array().map(|a| a.as_slice()).unwrap_or(&[]) {
+                    let p = t["pid"].as_i64().unwrap_or(-1);
+                    if norm_ws(t["name"].as_str().unwrap_or("")) == fg_body_text(c.j)
+                        && table.get(&(p as i32)).map(|v| v.0 as i64) == Some(main_pid)
+                    {
+                        pidmap.entry(p).or_insert(c.j as i64);
+                    }
+                }
+            }
+        }
+    }
+    // a foreground job the shell is still waiting for (no job control): the one
+    // child of the shell that is not accounted for
+    for c in script.iter() {
+        if c.k == "fgstart" && !pidmap.values().any(|s| *s == c.j as i64) {
+            let unknown: Vec<i64> =
+                table.iter().filter(|(p, v)| v.0 as i64 == main_pid && !pidmap.contains_key(&(**p as i64))).map(|(p, _)| *p as i64).collect();
+            if unknown.len() == 1 {
+                pidmap.insert(unknown[0], c.j as i64);
+            }
+        }
+    }
+    let stop_status = 384 + vs::SIGSTOP.as_raw() as i64;
     let mut steps = vec![];
     for (k, c) in script.iter().enumerate() {
         let i = k as i64 + 1;
@@ -354,13 +404,17 @@ pub fn run_script(m: bool, script: &[Cmd], schedule: Schedule) -> Run {
                     .collect()
             })
             .unwrap_or_default();
-        let out: Vec<Value> = if matches!(c.k.as_str(), "jobs" | "bg" | "fg") {
+        let out: Vec<Value> = if matches!(c.k.as_str(), "jobs" | "bg" | "fg" | "killl") {
             file_string(&r, &format!("/tmp/o{i}")).lines().map(|l| parse_line(&c.k, &c.opt, l, &pidmap)).collect()
         } else {
             vec![]
         };
         let err = !file_string(&r, &format!("/tmp/e{i}")).is_empty();
-        steps.push(json!({"st": e["st"], "bang": bang, "tab": tab, "cur": e["cur"], "prev": e["prev"],
+        let st = match e["st"].as_i64().unwrap_or(-1) {
+            x if x == stop_status => -116,
+            x => x,
+        };
+        steps.push(json!({"st": st, "bang": bang, "tab": tab, "cur": e["cur"], "prev": e["prev"],
                           "out": out, "err": err}));
     }
     // final process table, per slot
